@@ -5,7 +5,8 @@ use crate::interp::{dump, Interp};
 use crate::proto::*;
 use hpo::annotations::{AnnotationId, Disease, GeneId, OmimDiseaseId, OrphaDiseaseId};
 use hpo::term::InformationContentKind;
-use hpo::{HpoTermId, Ontology};
+use hpo::term::HpoGroup;
+use hpo::{HpoSet, HpoTermId, Ontology};
 use std::collections::{BTreeMap, BTreeSet};
 
 pub fn exec(it: &mut Interp, toks: &[&str], out: &mut Vec<String>) -> bool {
@@ -418,6 +419,35 @@ fn big_arena(n: u32, seed: u64) -> Result<(), String> {
         Ok(())
     };
     links(&o, "built")?;
+    // distances, set operations and sub-ontologies on terms in arena slots beyond 65 535
+    for (x, y) in linked.iter().take(40) {
+        let tx = o.hpo(*x).ok_or("late term missing")?;
+        let ty = o.hpo(*y).ok_or("late term missing")?;
+        let t118 = o.hpo(118u32).ok_or("118 missing")?;
+        if ty.distance_to_ancestor(&tx) != Some(1) || ty.distance_to_ancestor(&t118) != Some(2) || ty.distance_to_term(&tx) != Some(1) || tx.distance_to_term(&ty) != Some(1) {
+            return Err(format!("distances between the late terms {x} <- {y}"));
+        }
+        let set = HpoSet::new(&o, HpoGroup::from(vec![*x, *y, 118u32]));
+        let leaves: Vec<u32> = set.child_nodes().iter().map(|t| t.id().as_u32()).collect();
+        if leaves != vec![*y] || set.len() != 3 || set.gene_ids().len() != 1 {
+            return Err(format!("HpoSet of the late terms {x}, {y}: child_nodes {leaves:?}"));
+        }
+        let common: Vec<u32> = tx.all_common_ancestor_ids(&ty).iter().map(|t| t.as_u32()).collect();
+        let mut want = vec![1u32, 118, *x];
+        want.sort_unstable();
+        if common != want {
+            return Err(format!("all_common_ancestor_ids of the late terms {x}, {y}: {common:?}"));
+        }
+    }
+    if let Some((x, y)) = linked.first() {
+        let sub = o
+            .sub_ontology(o.hpo(118u32).ok_or("118 missing")?, vec![o.hpo(*y).ok_or("late term missing")?])
+            .map_err(|e| format!("sub_ontology(118, late leaf): {e}"))?;
+        let py: Vec<u32> = sub.hpo(*y).map(|t| t.parent_ids().iter().map(|p| p.as_u32()).collect()).unwrap_or_default();
+        if sub.len() != 3 || py != vec![*x] {
+            return Err(format!("sub_ontology(118, [{y}]) has {} terms, parents of the leaf {py:?}", sub.len()));
+        }
+    }
     let bytes = o.as_bytes();
     let re = Ontology::from_bytes(&bytes).map_err(|e| format!("from_bytes(as_bytes) of the big ontology: {e}"))?;
     check(&re, "reloaded")?;
